@@ -109,7 +109,7 @@ def run_miri(prop, cases, seed, logdir):
     t0 = time.time()
     env = dict(BASE_ENV)
     env["CARGO_TARGET_DIR"] = os.path.join(TARGET, "miri")
-    env["MIRIFLAGS"] = "-Zmiri-disable-isolation -Zmiri-num-cpus=8"
+    env["MIRIFLAGS"] = "-Zmiri-disable-isolation -Zmiri-num-cpus=8 -Zmiri-deterministic-floats"
     # build once (first case), then the rest in parallel
     def one(case):
         cmd = ["cargo", "+nightly", "miri", "run", "--offline", "--bin", "vtv", "--", prop, "--tier", "tiny", "--seed", str(seed), "--case", str(case)]
